@@ -1,5 +1,5 @@
 //! Workload corpora (3.4): A = maintainers' examples (through the public API, so it follows /repo),
-//! B = lib/tests/tests/**/*.vrl, C = /verif/corpus/c/*.vrl (shapes aimed at the seams).
+//! B = lib/tests/tests/**/*.vrl, C = /verif/corpus/tests/**/*.vrl (shapes aimed at the seams).
 
 use std::path::{Path, PathBuf};
 
@@ -134,9 +134,10 @@ pub fn corpus_b() -> Vec<Case> {
 }
 
 pub fn corpus_c() -> Vec<Case> {
-    let root = repo_dir().join("lib/tests");
+    // Test::from_path wants files under $CARGO_MANIFEST_DIR/tests/
+    let root = verif_dir().join("corpus");
     unsafe { std::env::set_var("CARGO_MANIFEST_DIR", &root) };
-    let dir = verif_dir().join("corpus/c");
+    let dir = root.join("tests");
     let mut files = vec![];
     vrl_files(&dir, &mut files);
     files
